@@ -121,6 +121,9 @@ var partials = [][]string{{"nx", "ny"}, {"red"}, {"alpha"}, {"green", "blue"}, {
 type genOpts struct {
 	MinV, MaxV int
 	Large      bool
+	// directed cases of the large phase
+	ForceV      int
+	ForceFormat string
 }
 
 func drawStored(r *rand.Rand, typ string) float64 {
@@ -171,6 +174,9 @@ func drawStored(r *rand.Rand, typ string) float64 {
 func genModel(r *rand.Rand, o genOpts) *model {
 	m := &model{}
 	m.Format = []string{"ascii", "binary_little_endian", "binary_big_endian"}[r.Intn(3)]
+	if o.ForceFormat != "" {
+		m.Format = o.ForceFormat
+	}
 	m.HeaderNL = "\n"
 	if r.Intn(3) == 0 {
 		m.HeaderNL = "\r\n"
@@ -281,6 +287,9 @@ func genModel(r *rand.Rand, o genOpts) *model {
 			nv = 1 + r.Intn(6)
 		}
 	}
+	if o.ForceV > 0 {
+		nv = o.ForceV
+	}
 	m.Verts = make([][]float64, nv)
 	for i := range m.Verts {
 		row := make([]float64, len(m.VProps))
@@ -296,6 +305,9 @@ func genModel(r *rand.Rand, o genOpts) *model {
 		nf = []int{0, 0, 1, 2, 3, 5, 9}[r.Intn(7)]
 		if o.Large {
 			nf = nv/2 + r.Intn(nv)
+			if o.ForceV > 0 && r.Intn(3) == 0 {
+				nf = 0 // a large cloud (with or without `element face 0`)
+			}
 		}
 	}
 	m.HasFace = nf > 0 || r.Intn(2) == 0
